@@ -87,7 +87,7 @@ var c19UserNames = []string{"f", "c19-fn", "add2", "my-func", "g1", "do-it!", "x
 
 func c19RunRandom(w *fw.W, idx int) {
 	r := w.RNG(idx, "main")
-	switch r.Intn(13) {
+	switch r.Intn(14) {
 	case 0, 1, 2, 3, 4: // shadowing contexts
 		cases := c19ShadowCases()
 		sc := cases[r.Intn(len(cases))]
@@ -109,9 +109,12 @@ func c19RunRandom(w *fw.W, idx int) {
 	case 10, 11: // a name defined more than once
 		c19RandomRedef(w, r)
 		w.Count("sampled_redefined_cases", 1)
-	default: // any core name or defun at any syntactic position
+	case 12: // any core name or defun at any syntactic position
 		c19RandomPosition(w, r)
 		w.Count("sampled_position_cases", 1)
+	default: // package movement between a global shadowing definition and the call
+		c19RandomMove(w, r)
+		w.Count("sampled_pkgmove_cases", 1)
 	}
 }
 
